@@ -73,7 +73,7 @@ pub fn nontramp_htlc(npay: usize) -> impl Strategy<Value = HtlcSpec> {
 }
 
 fn pay_spec(i: usize, amountless: bool) -> PaymentSpec {
-    PaymentSpec { preimage: 0x11 * (i as u8 + 1), invoice_amount: if amountless { None } else { Some(1_000_000) }, tlv_amount: 1_000_000, hints: Hints::None, explicit_payee: false, recipient_ok: true, drain_parts: 1 }
+    PaymentSpec { preimage_hi: 0, preimage: 0x11 * (i as u8 + 1), invoice_amount: if amountless { None } else { Some(1_000_000) }, tlv_amount: 1_000_000, hints: Hints::None, explicit_payee: false, recipient_ok: true, drain_parts: 1 }
 }
 
 fn c13_strategy() -> impl Strategy<Value = Scenario> {
